@@ -6,17 +6,20 @@ from vlib import *
 ALLKEYS = ["i0", "i1", "i2", "i3", "i4", "ib", "f25", "sa", "sb", "sl", "bt", "tk", "fk"]
 ALIAS = {"f2": "i2", "fm0": "i0", "fb": "ib", "f3": "i3"}
 INTVAL = {"i0": 0, "i1": 1, "i2": 2, "i3": 3, "i4": 4, "ib": 1073741824}
+INTVAL.update({"n%d" % i: i for i in range(1, 41)})
 
 
-def prelude(rng):
+def prelude(rng, big=False):
     sa = "".join(rng.choice("abcdefgh") for _ in range(rng.randint(1, 3)))
     sb = sa + rng.choice("xyz")
     sl = "".join(rng.choice("abcdefghijklmnop") for _ in range(40))
-    return """local K = {i0 = 0, i1 = 1, i2 = 2, i3 = 3, i4 = 4, ib = 1073741824, f25 = 2.5, sa = "%s", sb = "%s", sl = "%s",
+    return ("BIGFAMILY = true\n" if big else "") + """local K = {i0 = 0, i1 = 1, i2 = 2, i3 = 3, i4 = 4, ib = 1073741824, f25 = 2.5, sa = "%s", sb = "%s", sl = "%s",
   bt = true, tk = {}, fk = function() end, f2 = 2.0, fm0 = -0.0, fb = 1073741824.0, f3 = 3.0}
+for i = 1, 40 do K["n" .. i] = i end
 local V = {v1 = "one", v2 = "two"}
 local VN = {one = "v1", two = "v2"}
 local NAMES = {"i0", "i1", "i2", "i3", "i4", "ib", "f25", "sa", "sb", "sl", "bt", "tk", "fk"}
+if BIGFAMILY then NAMES = {"i0", "ib", "f25", "sa", "tk"} for i = 1, 40 do NAMES[#NAMES + 1] = "n" .. i end end
 local function nameof(key) for _, nm in ipairs(NAMES) do if rawequal(K[nm], key) then return nm end end return "?" end
 local function ty(k) return math.type(k) or type(k) end
 local STEP, SP = 0, "-"
@@ -47,7 +50,7 @@ end
 
 
 def render(line, rng, spell):
-    out = [prelude(rng)]
+    out = [prelude(rng, big=any(x.startswith("n") and x[1:].isdigit() for x in spell))]
     for a in line["h"]:
         k, act, s = a["k"], a["a"], a["s"]
         if act == "set":
@@ -144,13 +147,14 @@ def check_line(line, o, spell, norm):
 
 
 CONFIGS = {
-    "quick": [("TableIntQ.cfg", None, 2), ("TableMixQ.cfg", None, 2), ("TableSim.cfg", "num=300", 1)],
-    "thorough": [("TableIntT.cfg", None, 3), ("TableMixT.cfg", None, 3), ("TableSim.cfg", "num=6000", 2)],
+    "quick": [("TableIntQ.cfg", None, 2), ("TableMixQ.cfg", None, 2), ("TableSim.cfg", "num=300", 1), ("TableBigSim.cfg", "num=80", 1)],
+    "thorough": [("TableIntT.cfg", None, 3), ("TableMixT.cfg", None, 3), ("TableSim.cfg", "num=6000", 2), ("TableBigSim.cfg", "num=3000", 2)],
 }
 
 FAM = {"Int": (["i0", "i1", "i2", "i3", "i4", "ib"], {"f2": "i2", "fm0": "i0", "fb": "ib"}),
        "Mix": (["i1", "i2", "f25", "sa", "sl", "bt", "tk", "fk"], {"f2": "i2"}),
-       "All": (ALLKEYS, ALIAS)}
+       "All": (ALLKEYS, ALIAS),
+       "Big": (["n%d" % i for i in range(1, 41)] + ["i0", "ib", "f25", "sa", "tk"], {"f2": "n2", "fm0": "i0", "fb": "ib", "f3": "n3"})}
 
 
 def run(prop, tier):
